@@ -808,6 +808,11 @@ func (r *gRun) oracles() []string {
 		}
 		seen[row] = true
 	}
+	// C09: points marked required=false never cause a failure — a scenario in which EVERY point is optional, nothing is
+	// substituted and no fault is injected must start
+	if r.status != "ok" && !r.sc.reentrant() && !r.sc.retry() && r.allOptional() {
+		add("c09-optional-fails", "start-up ended with %s although every injection point of the scenario is marked required=false and no fault is injected: %.160s", r.status, strings.ReplaceAll(r.errText, "\n", " "))
+	}
 	if r.status != "ok" && !r.sc.reentrant() && r.plainlyResolvable() {
 		add("c02-resolvable-fails", "start-up ended with %s although every point names an existing, different component, nothing is substituted and no fault is injected: %.160s", r.status, strings.ReplaceAll(r.errText, "\n", " "))
 	}
@@ -969,6 +974,26 @@ func (r *gRun) oracles() []string {
 // plainlyResolvable: every point of every node is a required/optional by-name wire through an `any` slot to an existing
 // node other than the holder, no substitution, no fault, no configuration slot, no post-processor types. Such a graph —
 // whatever cycles it contains — must start (C02), independently of any model.
+// allOptional: at least one point, every point carries required=false, and nothing else can make the start fail
+func (r *gRun) allOptional() bool {
+	if r.sc.loaderFail || r.sc.scanFail {
+		return false
+	}
+	points := 0
+	for _, n := range r.sc.nodes {
+		if n.flt != 0 || n.early != 0 || n.after != 0 || n.cfg != 0 || utInfos[n.ty].pp {
+			return false
+		}
+		for _, tag := range n.slots {
+			points++
+			if !strings.Contains(tag, ",required=false") {
+				return false
+			}
+		}
+	}
+	return points > 0
+}
+
 func (r *gRun) plainlyResolvable() bool {
 	if r.sc.loaderFail || r.sc.scanFail {
 		return false
